@@ -616,6 +616,7 @@ def sweep_expr(res, ref, e, text, out, origin):
 
 # ---- the code-shaped model (coq/C11/Regex.v), step by step -----------------
 ALPHA_X = '12-#(): .^_*'       # MCNP alphabet + the private characters
+ALPHA_XQ = '1-#(): ^_*'        # quick tier: without the passive '2' and '.'
 ALPHA_P = '12-+.():*^_'        # what normalize() hands to the PEG
 
 
@@ -637,11 +638,11 @@ def regex_steps():
 
 def step_job(job):
     '''fingerprints of the ten string functions on prefix + s, |s| <= n'''
-    prefix, n = job
+    prefix, n, alphabet = job
     steps = regex_steps()
     sums = [0] * len(steps)
     for k in range(n + 1):
-        for tup in itertools.product(ALPHA_X, repeat=k):
+        for tup in itertools.product(alphabet, repeat=k):
             text = prefix + ''.join(tup)
             hin = h_str(text)
             for i, (_name, fun) in enumerate(steps):
@@ -682,19 +683,20 @@ def run_regex_tie(res, quick, pool):
     '''each re.sub of normalize() and the PEG against their explicit models
     of coq/C11/Regex.v, on every short string incl. the private characters'''
     n = 3 if quick else 4
-    jobs = [(a, n) for a in ALPHA_X]
+    alpha = ALPHA_XQ if quick else ALPHA_X
+    jobs = [(a, n, alpha) for a in alpha]
     sums = pool.map(step_job, jobs)
     names = [name for name, _ in regex_steps()]
     cases = [cpair(common.cnat(k), cstr(pre), cn(sums[j][k]))
-             for j, (pre, _) in enumerate(jobs) for k in range(len(names))]
+             for j, (pre, _, _) in enumerate(jobs) for k in range(len(names))]
     check = (f'(fun c : nat * string * N => let \'(k, p, h) := c in '
-             f'N.eqb (step_fp k p {n}) h)')
+             f'N.eqb (step_fp_on {"alphaXq" if quick else "alphaX"} k p {n}) h)')
     bad, errs = common.run_case_files('c11_steps', HEADER, 'nat * string * N',
                                       check, cases, chunk=40)
-    n_str = sum(len(ALPHA_X) ** k for k in range(1, n + 2))
+    n_str = sum(len(alpha) ** k for k in range(1, n + 2))
     res.obligation(f'tie:regex steps (strip, the eight re.sub of normalize() '
                    f'and normalize itself vs Regex.v on all {n_str} non-empty '
-                   f'strings of length <= {n + 1} over {ALPHA_X!r})',
+                   f'strings of length <= {n + 1} over {alpha!r})',
                    not bad and not errs,
                    f'differing: {[(names[i % len(names)], jobs[i // len(names)][0]) for i in bad][:6]} {errs[:1]}')
     for idx in bad[:4]:
